@@ -13,6 +13,8 @@ def explain(case, verdict, runs):
     if (verdict == "violation:conforming-use-rejected" and case["kind"] == "null-return" and n["T"] == "Bool" and n["target_nullable"]
             and n.get("shape") == "implicit" and n["source"] in ("value", "defaulted")):
         return "KF-C06-1"
+    if verdict == "violation:conforming-use-rejected" and case["kind"] == "null-return-twin":
+        return "KF-C06-2"
     return None
 
 
